@@ -847,5 +847,9 @@ func (x *Exec) guaranteeObligations(st *State, c *callCtx, rec *YieldRec, idx in
 		pk := App(SStr, "val", colSel("tasks", "root_promise_id", t0, SOptS))
 		goal := App(SBool, "xguar.C08", t0, t1, g.rowAt(st, rec.Pre["promises"], pk), g.rowAt(st, rec.Post["promises"], pk))
 		x.oblige(st, "guarantee", "when a promise leaves pending all of its active tasks are completed in the same transaction (xguar.C08)", goal, c.common.Pos(), []string{"C08"})
+		if _, ok := x.prog.spec.sigs["xguar.C08.unclaimed"]; ok {
+			goal2 := App(SBool, "xguar.C08.unclaimed", t0, t1, g.rowAt(st, rec.Pre["promises"], pk), g.rowAt(st, rec.Post["promises"], pk))
+			x.oblige(st, "guarantee", "an unclaimed task is completed only together with its root promise or as a dispatched notification (xguar.C08.unclaimed)", goal2, c.common.Pos(), []string{"C05", "C08"})
+		}
 	}
 }
